@@ -213,7 +213,11 @@ func (g *c06xGen) chainOp(s int, wide bool) int {
 	if g.clone[s] == 0 {
 		g.used[s] = true
 	}
-	return g.add(o, 0)
+	i := g.add(o, 0)
+	if o.N == "model" {
+		g.read[i] = true // Create(&notes) on a chain whose Model is the employee type would write the employees table
+	}
+	return i
 }
 
 // finisher on s; `reads` = only finishers that read
